@@ -77,7 +77,14 @@ impl Source {
             }
 
             if interpret_syntax && !self.in_line_comment {
-                if trimmed.starts_with('}') && self.s.ends_with("  ") {
+                // Only remove one level of indentation, never blanks that
+                // are part of text already on this line.
+                let line_is_blank = self
+                    .s
+                    .rsplit('\n')
+                    .next()
+                    .is_some_and(|l| l.trim().is_empty());
+                if trimmed.starts_with('}') && self.s.ends_with("  ") && line_is_blank {
                     self.s.pop();
                     self.s.pop();
                 }
